@@ -301,6 +301,7 @@ kill:
 	if (!success) {
 		if (output)
 			unlink(output);
+		rmtemps();
 		exit(1);
 	}
 }
@@ -327,8 +328,10 @@ buildexe(struct input *inputs, size_t ninputs, char *output)
 	arrayaddptr(&s->cmd, NULL);
 
 	ret = spawn(&pid, &s->cmd, NULL);
-	if (ret)
-		fatal("%s: spawn \"%s\": %s", s->name, *(char **)s->cmd.val, strerror(errno));
+	if (ret) {
+		rmtemps();
+		fatal("%s: spawn \"%s\": %s", s->name, *(char **)s->cmd.val, strerror(ret));
+	}
 	if (waitpid(pid, &status, 0) < 0)
 		fatal("waitpid %ju:", (uintmax_t)pid);
 	rmtemps();
